@@ -34,7 +34,10 @@ var syncCalls = map[string]bool{"cancel": true, "workerCtxCancel": true, "schedu
 	"IterationsExhausted": true, "RecordDroppedIteration": true, "recordDropped": true, "halt": true, "stop": true,
 	"sendJobsForExecution": true, "waitForNewJobs": true, "maxIterationsReached": true, "WaitForCompletion": true,
 	"Reset": true, "Run": true, "Trigger": true, "SnapshotProgress": true, "GetTotals": true, "Stop": true, "Start": true,
-	"Restart": true, "startFirst": true, "startNext": true, "NewTicker": true, "NewTimer": true, "CollectLifetime": true, "Update": true, "drain": true, "Snapshot": true, "Record": true}
+	"Restart": true, "startFirst": true, "startNext": true, "NewTicker": true, "NewTimer": true,
+	// time and context control, and non-local exits: where they are called is part of what the models assume
+	"Sleep": true, "After": true, "AfterFunc": true, "Until": true, "WithTimeout": true, "WithDeadline": true, "WithCancel": true,
+	"panic": true, "recover": true, "Goexit": true, "CollectLifetime": true, "Update": true, "drain": true, "Snapshot": true, "Record": true}
 
 // pkgFuncs: names of the functions and methods declared in the package of the file being
 // processed (given by -pkgfuncs): calls of them are listed too, so that the listing can be
